@@ -504,3 +504,753 @@ def _mark_aniso(report, fi, fn, ml, mark, accval, ind, short):
                  'elements marked with tag 0 are refined in time, tag 1 in '
                  'space (after re-resolution through .children); found %s' %
                  got, construct=short + ': axis flow')
+
+
+# --------------------------------------------------------------------------
+# structural premises of the mesh invariants J1-J7 (C02, C10)
+# --------------------------------------------------------------------------
+OWNED = ('nbr_edge', 'elem', 'children', 'parent', 'levels', 'glob_idx',
+         'leaf_elements', 'N_elements', 'vertices', 'roots', 'on_boundary',
+         'glued')
+MUTATORS = ('append', 'pop', 'setdefault', 'extend', 'remove', 'update',
+            'clear', 'add', 'insert', 'popitem', 'discard', 'sort',
+            'reverse', 'move_to_end')
+MESH_WRITERS = {
+    'Vertex.__init__', 'Edge.__init__', 'Edge.bisect', 'Element.__init__',
+    'Mesh.__init__', 'Mesh.__bisect_edge', 'Mesh.__create_edges',
+    'Mesh.refine_axis'
+}
+GAMMA_WRITERS = {(M, 'Element.__init__'), (M, 'MeshParametrized.__init__'),
+                 ('src/hierarchical_error_estimator.py',
+                  'DummyElement.__init__')}
+# files with their own element/vertex classes (self-writes in constructors
+# and in InitialMesh are their own business)
+OWN_CLASSES = {'src/initial_mesh.py', 'src/hierarchical_error_estimator.py',
+               'src/parametrization.py', 'src/quadrature.py'}
+
+
+def _writes(fnode):
+    """(attr, receiver text, node, kind) for attribute stores and mutating
+    calls in a function's own code."""
+    from .flow import own_nodes
+    for n in own_nodes(fnode):
+        tgts = []
+        if isinstance(n, ast.Assign):
+            tgts = n.targets
+        elif isinstance(n, (ast.AugAssign, ast.AnnAssign)):
+            tgts = [n.target]
+        for t in tgts:
+            for tt in (t.elts if isinstance(t, (ast.Tuple, ast.List)) else
+                       [t]):
+                if isinstance(tt, ast.Attribute):
+                    yield tt.attr, text(tt.value), n, 'store'
+                elif isinstance(tt, ast.Subscript) and isinstance(
+                        tt.value, ast.Attribute):
+                    yield tt.value.attr, text(tt.value.value), n, 'item'
+        if isinstance(n, ast.Call) and isinstance(
+                n.func, ast.Attribute) and n.func.attr in MUTATORS and \
+                isinstance(n.func.value, ast.Attribute):
+            yield n.func.value.attr, text(n.func.value.value), n, 'call'
+        if isinstance(n, ast.Delete):
+            for t in n.targets:
+                if isinstance(t, ast.Attribute):
+                    yield t.attr, text(t.value), n, 'del'
+
+
+def check_ownership(prog, report):
+    n_sites = 0
+    for fi in prog.all_funcs():
+        if isinstance(fi.node, ast.Lambda):
+            continue
+        top = fi
+        while top.parent is not None:
+            top = top.parent
+        for attr, recv, node, kind in _writes(fi.node):
+            if attr == 'gamma_space':
+                ok = (fi.file, top.qualname) in GAMMA_WRITERS or (
+                    recv == 'self' and fi.file != M)
+                n_sites += 1
+                report.check(
+                    ok, 'R-own', '%s writes .gamma_space' % fi.qualname,
+                    fi.where(node),
+                    'the piece of an element is written only in '
+                    'Element.__init__ (inherit), MeshParametrized.__init__ '
+                    '(roots) and DummyElement.__init__',
+                    construct='%s: write of gamma_space' % fi.qualname)
+                continue
+            if attr not in OWNED:
+                continue
+            if fi.file == M:
+                ok = top.qualname in MESH_WRITERS
+            elif fi.file in OWN_CLASSES:
+                ok = True if recv == 'self' or fi.cls is not None else False
+            else:
+                ok = False
+            n_sites += 1
+            report.check(
+                ok, 'R-own', '%s writes .%s' % (fi.qualname, attr),
+                fi.where(node),
+                'mesh state (%s) is written only by Edge.__init__, '
+                'Edge.bisect, Element.__init__, Mesh.__init__, '
+                'Mesh.__bisect_edge, Mesh.__create_edges and '
+                'Mesh.refine_axis -- the frame of the inductive invariant; '
+                'found `%s`' % (attr, text(node)[:60]),
+                construct='%s: write of %s' % (fi.qualname, attr))
+    report.floor('R-own', 25)
+    return n_sites
+
+
+def _block_stmts(fnode):
+    """Every statement list (block) in the function."""
+    for n in ast.walk(fnode):
+        for fld in ('body', 'orelse', 'finalbody'):
+            b = getattr(n, fld, None)
+            if isinstance(b, list) and b and isinstance(b[0], ast.stmt):
+                yield b
+
+
+def check_pairing(prog, report):
+    """R-pair: X.nbr_edge = Y  <=>  Y.nbr_edge = X in the same block."""
+    n = 0
+    for q in ('Edge.bisect', 'Mesh.__init__', 'Mesh.__create_edges',
+              'Mesh.refine_axis', 'Mesh.__bisect_edge', 'Edge.__init__'):
+        fi = prog.func(M, q)
+        for block in _block_stmts(fi.node):
+            stores = []
+            for st in block:
+                if isinstance(st, ast.Assign) and len(
+                        st.targets) == 1 and isinstance(
+                            st.targets[0], ast.Attribute) and \
+                        st.targets[0].attr == 'nbr_edge':
+                    if isinstance(st.value, ast.Constant) and \
+                            st.value.value is None:
+                        continue
+                    stores.append((text(st.targets[0].value),
+                                   text(st.value), st))
+            have = {(a, b) for a, b, _ in stores}
+            for a, b, st in stores:
+                n += 1
+                report.check(
+                    (b, a) in have, 'R-pair',
+                    '%s `%s.nbr_edge = %s`' % (q, a[:30], b[:30]),
+                    fi.where(st),
+                    'the twin relation is written symmetrically: the same '
+                    'block must contain `%s.nbr_edge = %s`' % (b, a),
+                    construct='%s: unpaired nbr_edge store' % q)
+    report.floor('R-pair', 12)
+
+
+def check_cross(prog, report):
+    """R-cross + child construction of Edge.bisect."""
+    fi = prog.func(M, 'Edge.bisect')
+    params = fi.params
+    cv = params[1] if len(params) > 1 else None
+    # children = (Edge((a, m), self), Edge((m, b), self)), a, b = vertices
+    okc = False
+    for n in ast.walk(fi.node):
+        if isinstance(n, ast.Assign) and text(
+                n.targets[0]) == 'self.children' and isinstance(
+                    n.value, ast.Tuple) and len(n.value.elts) == 2:
+            e = [text(x).replace(' ', '') for x in n.value.elts]
+            okc = e in ([
+                'Edge((a,%s),self)' % cv, 'Edge((%s,b),self)' % cv
+            ], ['Edge((a,%s),parent=self)' % cv,
+                'Edge((%s,b),parent=self)' % cv],
+                        ['Edge(vertices=(a,%s),parent=self)' % cv,
+                         'Edge(vertices=(%s,b),parent=self)' % cv])
+            loc = n
+    unpack = any(isinstance(n, ast.Assign) and text(n.targets[0]) == '(a, b)'
+                 and text(n.value) == 'self.vertices'
+                 for n in ast.walk(fi.node))
+    report.check(okc and unpack, 'R-cross', 'Edge.bisect halves', fi.where(),
+                 'an edge (a,b) is bisected into child 0 = (a,m) and child 1 '
+                 '= (m,b), both with parent=self',
+                 construct='Edge.bisect: halves')
+    cnt = 0
+    for n in ast.walk(fi.node):
+        if isinstance(n, ast.Assign) and isinstance(
+                n.targets[0], ast.Attribute) and n.targets[0].attr == \
+                'nbr_edge':
+            l, r = text(n.targets[0].value), text(n.value)
+            def idx(s):
+                if s.endswith('children[0]'):
+                    return 0
+                if s.endswith('children[1]'):
+                    return 1
+                return None
+            i, j = idx(l), idx(r)
+            sides = {l.startswith('self.nbr_edge.'),
+                     r.startswith('self.nbr_edge.')}
+            cnt += 1
+            report.check(
+                i is not None and j is not None and i + j == 1
+                and sides == {True, False}, 'R-cross',
+                'Edge.bisect `%s.nbr_edge = %s`' % (l, r), fi.where(n),
+                'the twin of (a,b) is (b,a): half i of an edge is the twin '
+                'of half 1-i of its twin edge',
+                construct='Edge.bisect: cross link')
+    # guard: only when the twin exists and is bisected
+    report.check(cnt == 4, 'R-cross', 'Edge.bisect four links', fi.where(),
+                 'both halves of both edges are linked (4 stores, found %d)'
+                 % cnt, construct='Edge.bisect: number of cross links')
+    report.floor('R-cross', 4)
+
+
+def check_inherit(prog, report):
+    from .absint import Walker, State
+
+    class W(Walker):
+        def __init__(s):
+            super().__init__()
+            s.stores = []
+
+        def on_stmt(s, st, state):
+            if isinstance(st, ast.Assign) and isinstance(
+                    st.targets[0], ast.Attribute) and text(
+                        st.targets[0].value) == 'self':
+                s.stores.append((st.targets[0].attr, text(st.value),
+                                 state.copy(), st))
+
+    fi = prog.func(M, 'Edge.__init__')
+    w = W()
+    w.walk_function(fi.node)
+    for attr in ('on_boundary', 'glued'):
+        got = {}
+        for a, v, state, st in w.stores:
+            if a == attr:
+                if state.entails_bool('parent', True):
+                    got['child'] = v
+                elif state.entails_bool('parent', False):
+                    got['root'] = v
+        report.check(
+            got == {'child': 'parent.' + attr, 'root': 'False'}, 'R-inherit',
+            'Edge.__init__ .%s' % attr, fi.where(),
+            'a half-edge copies %s from its parent edge; a parentless edge '
+            'starts with False (found %s)' % (attr, got),
+            construct='Edge.__init__: inherit %s' % attr)
+    fi = prog.func(M, 'Element.__init__')
+    w = W()
+    w.walk_function(fi.node)
+    got = {}
+    for a, v, state, st in w.stores:
+        if a == 'gamma_space':
+            if state.entails_bool('parent', True):
+                got['child'] = v
+            elif state.entails_bool('parent', False):
+                got['root'] = v
+    report.check(got == {'child': 'parent.gamma_space', 'root': 'None'},
+                 'R-inherit', 'Element.__init__ .gamma_space', fi.where(),
+                 'a child element sits on its parent\'s piece (found %s)' %
+                 got, construct='Element.__init__: inherit gamma_space')
+    # children of fresh interior edges: created without parent
+    fi = prog.func(M, 'Mesh.__create_edges')
+    calls = [n for n in ast.walk(fi.node) if isinstance(n, ast.Call)
+             and text(n.func) == 'Edge']
+    okp = len(calls) == 2 and all(
+        any(kw.arg == 'parent' and text(kw.value) == 'None'
+            for kw in c.keywords) or len(c.args) + len(c.keywords) == 1
+        for c in calls)
+    vs = sorted(text(kw.value if c.keywords and c.keywords[0].arg ==
+                     'vertices' else c.args[0]).replace(' ', '')
+                for c in calls for kw in (c.keywords[:1] or [None]))
+    p = fi.params[1] if len(fi.params) > 1 else 'vertices'
+    okv = vs == sorted(['(%s[0],%s[1])' % (p, p), '(%s[1],%s[0])' % (p, p)])
+    report.check(okp and okv, 'R-inherit', 'Mesh.__create_edges',
+                 fi.where(),
+                 'the interior edge pair is (n0,n1) and (n1,n0), both '
+                 'without parent (hence not on the boundary, not glued)',
+                 construct='Mesh.__create_edges: fresh twins')
+    report.floor('R-inherit', 4)
+
+
+# geometry of one element: V0..V3 corners, M0..M3 edge midpoints
+def _coords():
+    t0, tm, t1, x0, xm, x1 = 0, 1, 2, 0, 1, 2  # ordinal positions
+    V = {'V0': (t0, x0), 'V1': (t0, x1), 'V2': (t1, x1), 'V3': (t1, x0),
+         'M0': (t0, xm), 'M1': (tm, x1), 'M2': (t1, xm), 'M3': (tm, x0)}
+    return V
+
+
+def _edge_expr(node, ax, enames):
+    """Symbolic directed edge (tail, head, object id) of an expression in a
+    child constructor of refine_axis."""
+    s = text(node).replace(' ', '')
+    import re
+    m = re.fullmatch(r'edges\[(\d)\]', s)
+    if m:
+        i = int(m.group(1))
+        return ('V%d' % i, 'V%d' % ((i + 1) % 4), 'edge%d' % i, i, None)
+    m = re.fullmatch(r'edges\[(\d)\]\.children\[(\d)\]', s)
+    if m:
+        i, j = int(m.group(1)), int(m.group(2))
+        if j == 0:
+            return ('V%d' % i, 'M%d' % i, 'edge%d.child0' % i, i, j)
+        return ('M%d' % i, 'V%d' % ((i + 1) % 4), 'edge%d.child1' % i, i, j)
+    if s in enames:
+        n0, n1 = 'M%d' % (1 - ax), 'M%d' % (3 - ax)
+        if enames[s] == 0:
+            return (n0, n1, 'new0', None, None)
+        return (n1, n0, 'new1', None, None)
+    return None
+
+
+def check_children(prog, report):
+    fi = prog.func(M, 'Mesh.refine_axis')
+    fn = fi.node
+    # edges_axis(ax) = (edges[1-ax], edges[3-ax])
+    ea = prog.func(M, 'Element.edges_axis')
+    ret = [n for n in ast.walk(ea.node) if isinstance(n, ast.Return)]
+    ok_ea = len(ret) == 1 and text(ret[0].value).replace(' ', '') == \
+        '(self.edges[1-ax],self.edges[3-ax])'
+    report.check(ok_ea, 'R-children', 'Element.edges_axis', ea.where(),
+                 'edges_axis(ax) = (edges[1-ax], edges[3-ax]): the two edges '
+                 'a bisection in axis ax cuts, in this order',
+                 construct='Element.edges_axis')
+    # new_vertices in the order of edges_axis; e1, e2 = create_edges(new)
+    order_ok = False
+    for n in ast.walk(fn):
+        if isinstance(n, ast.For) and text(n.iter).replace(
+                ' ', '') == 'elem.edges_axis(ax)':
+            order_ok = any(
+                isinstance(m, ast.Call) and text(m.func) ==
+                'new_vertices.append' and 'bisect_edge(%s)' % text(n.target)
+                in text(m.args[0]) for m in ast.walk(n))
+    enames = {}
+    for n in ast.walk(fn):
+        if isinstance(n, ast.Assign) and isinstance(
+                n.targets[0], ast.Tuple) and isinstance(
+                    n.value, ast.Call) and 'create_edges' in text(
+                        n.value.func) and text(
+                            n.value.args[0]) == 'new_vertices':
+            for k, e in enumerate(n.targets[0].elts):
+                enames[text(e)] = k
+    report.check(order_ok and len(enames) == 2, 'R-children',
+                 'refine_axis new vertices', fi.where(),
+                 'the two cut edges are bisected in edges_axis order and the '
+                 'interior edge pair joins the two midpoints',
+                 construct='refine_axis: new vertices / interior edges')
+    alias_ok = any(isinstance(n, ast.Assign) and text(n.targets[0]) ==
+                   'edges' and text(n.value) == 'elem.edges'
+                   for n in ast.walk(fn))
+    if not alias_ok:
+        raise AnalysisError('%s: `edges = elem.edges` alias not found' %
+                            fi.where())
+    # branches: if ax == 0: ... else: ...
+    br = None
+    for n in fn.body:
+        if isinstance(n, ast.If) and text(n.test).replace(' ', '') in (
+                'ax==0', '0==ax', 'ax==1', '1==ax'):
+            br = n
+    if br is None:
+        raise AnalysisError('%s: axis branch not found' % fi.where())
+    first_ax = 0 if '0' in text(br.test) else 1
+    V = _coords()
+    for ax, body in ((first_ax, br.body), (1 - first_ax, br.orelse)):
+        ctors = []
+        for st in body:
+            if isinstance(st, ast.Assign) and isinstance(
+                    st.value, ast.Call) and text(st.value.func) == 'Element':
+                ctors.append((text(st.targets[0]), st.value, st))
+        if len(ctors) != 2:
+            raise AnalysisError('%s: two child constructors expected in the '
+                                '%s branch' % (fi.where(), AXNAME[ax]))
+        used = []
+        rects = []
+        for name, call, st in ctors:
+            kw = {k.arg: k.value for k in call.keywords}
+            tag = 'refine_axis[%s] %s' % (AXNAME[ax], name)
+            ed = kw.get('edges')
+            if not isinstance(ed, (ast.Tuple, ast.List)) or len(
+                    ed.elts) != 4:
+                raise AnalysisError('%s: edges tuple not recognised' %
+                                    fi.where(st))
+            es = [_edge_expr(e, ax, enames) for e in ed.elts]
+            if any(e is None for e in es):
+                raise AnalysisError('%s: edge expression not recognised' %
+                                    fi.where(st))
+            # halves exist only on the cut edges
+            cut = {1 - ax, 3 - ax}
+            halves_ok = all((e[4] is None) or (e[3] in cut) for e in es) \
+                and all(not (e[3] in cut and e[4] is None and e[3]
+                             is not None) for e in es)
+            chain = all(es[i - 1][1] == es[i][0] for i in range(4))
+            v = [V[e[0]] for e in es]
+            asserts = (v[0][0] == v[1][0] and v[1][1] == v[2][1]
+                       and v[2][0] == v[3][0] and v[3][1] == v[0][1]
+                       and v[0][0] < v[2][0] and v[0][1] < v[1][1])
+            report.check(
+                halves_ok and chain and asserts, 'R-children',
+                tag + ' edges', fi.where(st),
+                'the four edges chain head to tail around a rectangle in '
+                'the order bottom, right, top, left (the orientation '
+                'Element.__init__ asserts); halves are taken only from the '
+                'two cut edges; got %s' % [(e[0], e[1]) for e in es],
+                construct='refine_axis[%s]: child edges' % AXNAME[ax])
+            used += [e[2] for e in es]
+            rects.append((v[0][0], v[2][0], v[0][1], v[1][1]))
+            lv = kw.get('levels')
+            want = ['elem.level_time', 'elem.level_space']
+            want[ax] = want[ax] + '+1'
+            got = [text(x).replace(' ', '') for x in lv.elts] if isinstance(
+                lv, ast.Tuple) else None
+            alt = ['elem.levels[0]', 'elem.levels[1]']
+            alt[ax] = alt[ax] + '+1'
+            report.check(
+                got in (want, alt) and text(kw.get('parent')) == 'elem',
+                'R-children', tag + ' levels/parent', fi.where(st),
+                'the child is one level deeper in exactly the refined axis '
+                'and its parent is the bisected element; got levels=%s' %
+                got, construct='refine_axis[%s]: child levels' % AXNAME[ax])
+        uncut = sorted({0, 1, 2, 3} - {1 - ax, 3 - ax})
+        avail = sorted(['edge%d' % i for i in uncut] +
+                       ['edge%d.child%d' % (i, j)
+                        for i in (1 - ax, 3 - ax) for j in (0, 1)] +
+                       ['new0', 'new1'])
+        report.check(
+            sorted(used) == avail, 'R-children',
+            'refine_axis[%s] edge objects used once' % AXNAME[ax],
+            fi.where(br),
+            'each of the eight available edge objects (2 uncut, 4 halves, 2 '
+            'interior) is owned by exactly one child; used %s' % sorted(used),
+            construct='refine_axis[%s]: edge objects' % AXNAME[ax])
+        # tiling: the two rectangles split the parent along axis ax
+        full = (0, 2, 0, 2)
+        r1, r2 = sorted(rects)
+        if ax == 0:
+            tile = (r1 == (0, 1, 0, 2) and r2 == (1, 2, 0, 2))
+        else:
+            tile = (r1 == (0, 2, 0, 1) and r2 == (0, 2, 1, 2))
+        report.check(tile, 'R-children',
+                     'refine_axis[%s] children tile the parent' % AXNAME[ax],
+                     fi.where(br),
+                     'the two children are the two halves of the parent '
+                     'rectangle in the refined axis; got %s' % rects,
+                     construct='refine_axis[%s]: tiling' % AXNAME[ax])
+    report.floor('R-children', 12)
+
+
+def check_leafbook(prog, report):
+    fi = prog.func(M, 'Mesh.refine_axis')
+    fn = fi.node
+    body = fn.body
+    txt = [text(s).replace(' ', '') for s in body]
+    def has(s):
+        return any(t == s for t in txt)
+    pops = has('self.leaf_elements.pop(elem)')
+    adds = [t for t in txt if t.startswith('self.leaf_elements.setdefault(')
+            or t.startswith('self.leaf_elements[')]
+    ch = [s for s in body if isinstance(s, ast.Assign) and text(
+        s.targets[0]) == 'elem.children']
+    kids = None
+    if len(ch) == 1 and isinstance(ch[0].value, (ast.Tuple, ast.List)):
+        kids = [text(e) for e in ch[0].value.elts]
+    added = sorted(a[a.index('(') + 1:-1] for a in adds if '(' in a)
+    report.check(
+        pops and kids is not None and len(kids) == 2
+        and added == sorted(kids), 'R-leafbook', 'refine_axis leaf set',
+        fi.where(),
+        'the bisected element leaves the leaf collection and exactly its '
+        'two children enter it; elem.children is set to the same pair '
+        '(children %s, added %s, removed parent: %s)' % (kids, added, pops),
+        construct='refine_axis: leaf bookkeeping')
+    # global indices
+    offs = {}
+    inc = None
+    for s in body:
+        if isinstance(s, ast.Assign) and isinstance(
+                s.targets[0], ast.Attribute) and s.targets[0].attr == \
+                'glob_idx':
+            v = text(s.value).replace(' ', '')
+            if v == 'self.N_elements':
+                offs[text(s.targets[0].value)] = 0
+            elif v.startswith('self.N_elements+'):
+                try:
+                    offs[text(s.targets[0].value)] = int(v.split('+')[1])
+                except ValueError:
+                    offs[text(s.targets[0].value)] = None
+            else:
+                offs[text(s.targets[0].value)] = None
+        if isinstance(s, ast.AugAssign) and text(
+                s.target) == 'self.N_elements' and isinstance(
+                    s.op, ast.Add) and isinstance(s.value, ast.Constant):
+            inc = s.value.value
+    vals = sorted(v for v in offs.values() if v is not None)
+    report.check(
+        kids is not None and sorted(offs) == sorted(kids)
+        and vals == list(range(len(kids))) and inc == len(kids),
+        'R-leafbook', 'refine_axis global indices', fi.where(),
+        'the children receive the distinct indices N, N+1 and the counter '
+        'advances by exactly the number assigned (offsets %s, increment %s)'
+        % (offs, inc), construct='refine_axis: global indices')
+    # the parent's edges are released before the children claim them
+    rel = False
+    for s in body:
+        if isinstance(s, ast.For) and text(s.iter) == 'elem.edges':
+            if any(text(m).replace(' ', '') == '%s.elem=None' % text(
+                    s.target) for m in s.body):
+                rel = True
+    report.check(rel, 'R-leafbook', 'refine_axis releases edges', fi.where(),
+                 'all four edges of the parent are released (edge.elem = '
+                 'None) so that every edge object is owned by one element',
+                 construct='refine_axis: edge release')
+    report.floor('R-leafbook', 3)
+
+
+def check_closure(prog, report):
+    fi = prog.func(M, 'Mesh.refine_axis')
+    fn = fi.node
+    params = fi.params
+    if len(params) != 3:
+        raise AnalysisError('%s: signature changed' % fi.where())
+    el, ax = params[1], params[2]
+    # first non-assert statement must be the closure loop
+    first = [s for s in fn.body if not isinstance(s, ast.Assert) and not (
+        isinstance(s, ast.Expr) and isinstance(s.value, ast.Constant))]
+    cl = first[0] if first else None
+    ok_outer = isinstance(cl, ast.For) and text(cl.iter) == el + '.edges'
+    inner = None
+    if ok_outer:
+        for s in cl.body:
+            if isinstance(s, ast.For) and text(s.iter).replace(
+                    ' ', '') == '%s.neighbour_elements()' % text(cl.target):
+                inner = s
+    report.check(ok_outer and inner is not None, 'R-closure',
+                 'refine_axis closure scope', fi.where(cl or fn),
+                 'before the first mutation, a loop over all four edges of '
+                 'the element and all neighbours across each',
+                 construct='refine_axis: closure scope')
+    if inner is None:
+        return
+    nb = text(inner.target)
+    iff = [s for s in inner.body if isinstance(s, ast.If)]
+    okc = False
+    okr = False
+    if len(iff) == 1 and len(inner.body) == 1:
+        from .absint import cond_dnf, fact_key
+        want = cond_dnf(ast.parse('%s.levels[%s] < %s.levels[%s]' %
+                                  (nb, ax, el, ax), mode='eval').body, {})
+        got = cond_dnf(iff[0].test, {})
+        alt = None
+        okc = [sorted(map(fact_key, c)) for c in got] == \
+            [sorted(map(fact_key, c)) for c in want]
+        calls = [s for s in iff[0].body if isinstance(s, ast.Expr)
+                 and isinstance(s.value, ast.Call)]
+        okr = len(calls) == 1 and text(calls[0].value).replace(
+            ' ', '') == 'self.refine_axis(%s,%s)' % (nb, ax) and \
+            not iff[0].orelse
+    report.check(okc, 'R-closure', 'refine_axis closure test',
+                 fi.where(inner),
+                 'a neighbour is bisected first iff its level in the same '
+                 'axis is strictly lower than the element\'s '
+                 '(nbr.levels[ax] < elem.levels[ax])',
+                 construct='refine_axis: closure test')
+    report.check(okr, 'R-closure', 'refine_axis closure recursion',
+                 fi.where(inner),
+                 'the recursion bisects that neighbour in the same axis',
+                 construct='refine_axis: closure recursion')
+    report.floor('R-closure', 3)
+
+
+def check_vreuse(prog, report):
+    from .absint import cond_dnf, fact_key
+    fi = prog.func(M, 'Mesh.__bisect_edge')
+    fn = fi.node
+    e = fi.params[1]
+    iff = [s for s in fn.body if isinstance(s, ast.If)]
+    if len(iff) != 1:
+        raise AnalysisError('%s: reuse branch not found' % fi.where())
+    iff = iff[0]
+    got = cond_dnf(iff.test, {})
+    want = cond_dnf(ast.parse(
+        'not {0}.glued and {0}.nbr_edge and {0}.nbr_edge.children'.format(e),
+        mode='eval').body, {})
+    norm = lambda d: sorted(sorted(map(fact_key, c)) for c in d)
+    report.check(norm(got) == norm(want), 'R-vreuse', '__bisect_edge reuse '
+                 'condition', fi.where(iff),
+                 'the midpoint is reused iff the edge is not glued and its '
+                 'twin exists and is already bisected (a glued twin lies on '
+                 'the other copy of the seam and has its own vertex)',
+                 construct='__bisect_edge: reuse condition')
+    reuse = [s for s in iff.body if isinstance(s, ast.Assign)]
+    okr = len(reuse) == 1 and text(reuse[0].value).replace(' ', '') in (
+        '%s.nbr_edge.children[0].vertices[1]' % e,
+        '%s.nbr_edge.children[1].vertices[0]' % e)
+    report.check(okr, 'R-vreuse', '__bisect_edge reused vertex',
+                 fi.where(iff),
+                 'the reused vertex is the twin\'s midpoint (head of its '
+                 'first half = tail of its second half)',
+                 construct='__bisect_edge: reused vertex')
+    # fresh vertex: midpoint, idx = len(vertices), appended
+    new = None
+    for s in iff.orelse:
+        if isinstance(s, ast.Assign) and isinstance(
+                s.value, ast.Call) and text(s.value.func) == 'Vertex':
+            new = s
+    okn = False
+    if new is not None:
+        kw = {k.arg: text(k.value).replace(' ', '') for k in
+              new.value.keywords}
+        okn = kw.get('t') == '(a.t+b.t)/2' and kw.get(
+            'x') == '(a.x+b.x)/2' and kw.get('idx') == 'len(self.vertices)'
+        app = [text(s).replace(' ', '') for s in iff.orelse]
+        okn = okn and 'self.vertices.append(%s)' % text(
+            new.targets[0]) in app and any(
+                text(s.targets[0]).replace(' ', '') == '(a,b)' and text(
+                    s.value) == e + '.vertices' for s in iff.orelse
+                if isinstance(s, ast.Assign))
+    report.check(okn, 'R-vreuse', '__bisect_edge fresh vertex',
+                 fi.where(iff),
+                 'a fresh vertex is the midpoint of the edge, gets idx = '
+                 'len(vertices) and is appended at once',
+                 construct='__bisect_edge: fresh vertex')
+    bis = any(text(s).replace(' ', '') == '%s.bisect(child_vertex)' % e
+              for s in fn.body)
+    report.check(bis, 'R-vreuse', '__bisect_edge bisects', fi.where(),
+                 'the edge is bisected with that vertex',
+                 construct='__bisect_edge: bisect call')
+    report.floor('R-vreuse', 4)
+
+
+def check_ladder(prog, report):
+    from .absint import Walker
+
+    class W(Walker):
+        split_paths = True
+
+        def __init__(s):
+            super().__init__()
+            s.rets = []
+
+        def on_return(s, st, state):
+            s.rets.append((text(st.value).replace(' ', ''), state.copy(),
+                           st))
+
+    fi = prog.func(M, 'Edge.neighbour_elements')
+    w = W()
+    w.walk_function(fi.node)
+    cases = {
+        'own twin unrefined':
+        (lambda v: v == '[self.nbr_edge.elem]',
+         {'self.nbr_edge': True, 'self.nbr_edge.children': False}),
+        'twin refined':
+        (lambda v: v in
+         ('[child.elemforchildinself.nbr_edge.children]',
+          '[self.nbr_edge.children[0].elem,self.nbr_edge.children[1].elem]'),
+         {'self.nbr_edge': True, 'self.nbr_edge.children': True}),
+        'no twin, parent has':
+        (lambda v: v == 'self.parent.neighbour_elements()',
+         {'self.nbr_edge': False, 'self.parent': True,
+          'self.parent.nbr_edge': True}),
+        'boundary':
+        (lambda v: v == '[]',
+         {'self.on_boundary': True, 'self.glued': False}),
+    }
+    seen = set()
+    for val, state, st in w.rets:
+        matched = None
+        for name, (pred, need) in cases.items():
+            if pred(val):
+                matched = name
+                ok = all(state.entails_bool(k, b) for k, b in need.items())
+                seen.add(name)
+                report.check(
+                    ok, 'R-ladder', 'neighbour_elements: ' + name,
+                    fi.where(st),
+                    'this answer is given exactly under %s; path facts: %s' %
+                    (need, state.facts_text()[:160]),
+                    construct='neighbour_elements: ' + name)
+        if matched is None:
+            report.violation(
+                'R-ladder', 'neighbour_elements: unknown answer `%s`' %
+                val[:40], fi.where(st),
+                'not one of the four answers of the lookup ladder',
+                construct='neighbour_elements: unknown answer')
+    report.check(seen == set(cases), 'R-ladder',
+                 'neighbour_elements: all four cases', fi.where(),
+                 'own twin unrefined / twin refined / parent\'s answer / '
+                 'boundary; found %s' % sorted(seen),
+                 construct='neighbour_elements: cases')
+    report.floor('R-ladder', 5)
+
+
+def check_initial_wiring(prog, report):
+    """Mesh.__init__: vertex index arithmetic, boundary flags, glue."""
+    fi = prog.func(M, 'Mesh.__init__')
+    fn = fi.node
+    src = {text(s).replace(' ', '') for s in ast.walk(fn)
+           if isinstance(s, ast.stmt)}
+    n = 'len(initial_space_mesh)'
+    want_v = {
+        'v0=vertices[j*%s+i]' % n, 'v1=vertices[j*%s+i+1]' % n,
+        'v2=vertices[(j+1)*%s+i+1]' % n, 'v3=vertices[(j+1)*%s+i]' % n
+    }
+    report.check(want_v <= src, 'R-wiring', 'Mesh.__init__ root corners',
+                 fi.where(),
+                 'root (j,i) takes the grid vertices (t_j,x_i), (t_j,x_i+1), '
+                 '(t_j+1,x_i+1), (t_j+1,x_i) in this order',
+                 construct='Mesh.__init__: root corners')
+    want_e = {'e1=Edge(vertices=(v0,v1))', 'e2=Edge(vertices=(v1,v2))',
+              'e3=Edge(vertices=(v2,v3))', 'e4=Edge(vertices=(v3,v0))'}
+    el = any('Element(edges=[e1,e2,e3,e4],levels=(0,0))' in s for s in src)
+    report.check(want_e <= src and el, 'R-wiring', 'Mesh.__init__ root edges',
+                 fi.where(), 'bottom, right, top, left edges in this order',
+                 construct='Mesh.__init__: root edges')
+    flags = {'ifj==0:e1.on_boundary=True', 'ifi+1==N_x:e2.on_boundary=True',
+             'ifi==0:e4.on_boundary=True', 'ifj+1==N_t:e3.on_boundary=True'}
+    got = {s.replace('\n', '').replace(' ', '') for s in src}
+    report.check(flags <= got, 'R-wiring', 'Mesh.__init__ boundary flags',
+                 fi.where(),
+                 'bottom edge of the first slab, top edge of the last slab, '
+                 'left edge of the first and right edge of the last column '
+                 'are flagged as boundary',
+                 construct='Mesh.__init__: boundary flags')
+    sizes = {'N_t=len(initial_time_mesh)-1', 'N_x=len(initial_space_mesh)-1'}
+    report.check(sizes <= src, 'R-wiring', 'Mesh.__init__ sizes', fi.where(),
+                 'N_t, N_x are the numbers of intervals',
+                 construct='Mesh.__init__: sizes')
+    space = {'roots[-2].edges[1].nbr_edge=roots[-1].edges[3]',
+             'roots[-1].edges[3].nbr_edge=roots[-2].edges[1]'}
+    time_ = {'roots[(j-1)*N_x+i].edges[2].nbr_edge=roots[-1].edges[0]',
+             'roots[-1].edges[0].nbr_edge=roots[(j-1)*N_x+i].edges[2]'}
+    report.check(space <= src and time_ <= src, 'R-wiring',
+                 'Mesh.__init__ interior twins', fi.where(),
+                 'right edge of the left neighbour <-> left edge; top edge '
+                 'of the lower neighbour <-> bottom edge',
+                 construct='Mesh.__init__: interior twins')
+    glue = {'roots[j*N_x].edges[3].glued=True', 'roots[-1].edges[1].glued=True',
+            'roots[j*N_x].edges[3].nbr_edge=roots[-1].edges[1]',
+            'roots[-1].edges[1].nbr_edge=roots[j*N_x].edges[3]'}
+    # the glue statements sit in the slab loop after the column loop
+    placed = False
+    for s in fn.body:
+        if isinstance(s, ast.For) and text(s.target) == 'j':
+            if len(s.body) >= 2 and isinstance(
+                    s.body[0], ast.For) and isinstance(
+                        s.body[-1], ast.If) and text(
+                            s.body[-1].test) == 'glue_space':
+                inner = {text(x).replace(' ', '') for x in s.body[-1].body}
+                placed = glue <= inner
+    report.check(placed, 'R-wiring', 'Mesh.__init__ seam', fi.where(),
+                 'per slab, after its last root: the left edge of the first '
+                 'root and the right edge of the last root of the slab are '
+                 'glued twins', construct='Mesh.__init__: seam')
+    fin = {'self.leaf_elements=OrderedDict.fromkeys(roots)',
+           'self.N_elements=len(roots)', 'self.vertices=vertices',
+           'self.roots=roots', 'roots[-1].glob_idx=len(roots)-1'}
+    report.check(fin <= src, 'R-wiring', 'Mesh.__init__ bookkeeping',
+                 fi.where(), 'leaves = roots, indices 0..N-1, counter = N',
+                 construct='Mesh.__init__: bookkeeping')
+    vgen = False
+    for s in fn.body:
+        if isinstance(s, ast.For) and 'initial_time_mesh' in text(s.iter):
+            for s2 in s.body:
+                if isinstance(s2, ast.For) and 'initial_space_mesh' in text(
+                        s2.iter):
+                    vgen = any('vertices.append(Vertex(t=t,x=x,idx=len('
+                               'vertices)))' == text(x).replace(' ', '')
+                               for x in s2.body)
+    report.check(vgen, 'R-wiring', 'Mesh.__init__ vertex grid', fi.where(),
+                 'vertices are generated time-major so that index '
+                 'j*len(space)+i is (t_j, x_i)',
+                 construct='Mesh.__init__: vertex grid')
+    report.floor('R-wiring', 8)
